@@ -74,6 +74,11 @@ def extra_shapes(seed):
         "%s (1.0-6) unstable; urgency=LOW (Comment, kept)" % p if False else "%s (1.0-6) unstable; urgency=LOW" % p,
         " -- \u00c9 \u0130 <>  Thu,  5 Feb 2009 11:22:33 -1200",
         "  * change with trailing blanks  \t",
+        # headings the heading syntax accepts although a part is not what Policy lists: an urgency keyword of one's own,
+        # version texts that are no Debian versions (the parser keeps the raw text; nothing asks for a Version)
+        "%s (1.0-7) unstable; urgency=bogus" % p,
+        "%s (1.2_rc1-1) unstable; urgency=low" % p,
+        "%s (a:2024/01/04,1) unstable; urgency=low" % p,
     ]
 
 
